@@ -160,9 +160,22 @@ def run(ctx):
     corpus = sorted(glob.glob(os.path.join(vf.VERIF, "corpus", "C05", "*.jsonl")))
     if ctx.replay:
         corpus = [ctx.replay]
+    selftest = ["-slow", os.environ["VERIF_SELFTEST_SLOW"]] if os.environ.get("VERIF_SELFTEST_SLOW") else []
+
+    def harness(args, want=None, timeout=3000):
+        """run the harness; when it fails or is cut short (loaded machine) run it again with longer deadlines"""
+        rc, out, got = 1, "", []
+        for slow in (None, 4, 16):
+            cmd = [h] + (selftest if slow is None else ["-slow", str(slow)]) + args
+            rc, out = vf.sh(cmd, timeout=timeout, env=vf.GOENV)
+            got = [json.loads(l) for l in out.splitlines() if l.startswith("{")]
+            if rc == 0 and got and (want is None or len(got) == want):
+                break
+            ctx.log("harness run failed (rc=%d, %d observations), retrying with longer deadlines" % (rc, len(got)))
+        return rc, out, got
+
     for f in corpus:
-        rc, out = vf.sh([h, "-cases", f, "c05"], timeout=300, env=vf.GOENV)
-        got = [json.loads(l) for l in out.splitlines() if l.startswith("{")]
+        rc, out, got = harness(["-cases", f, "c05"])
         if rc != 0 or not got:
             ctx.broken_tie("harness failed on corpus file " + f, out[-2000:])
             return
@@ -171,8 +184,7 @@ def run(ctx):
         obs += got
     ncorpus = len(obs)
     if not ctx.replay:
-        rc, out = vf.sh([h, "-seed", str(ctx.seed), "-n", str(n), "c05"], timeout=1500, env=vf.GOENV)
-        gen = [json.loads(l) for l in out.splitlines() if l.startswith("{")]
+        rc, out, gen = harness(["-seed", str(ctx.seed), "-n", str(n), "c05"], want=n)
         if rc != 0 or len(gen) != n:
             ctx.broken_tie("harness crashed or hung (rc=%d, %d of %d cases)" % (rc, len(gen), n), out[-2000:])
             return
@@ -181,6 +193,37 @@ def run(ctx):
     for o in obs:
         for k in ("frames", "segs", "results"):
             o[k] = o.get(k) or []
+    # A harness-side timeout (read deadline of the receiving side, dial/accept/handshake deadline) is never an
+    # observation of the code under test: such a case is re-run alone with longer deadlines (same inputs), up to
+    # 3 times; if it still times out it is INCONCLUSIVE: dropped and counted in coverage.inconclusive.
+    def suspect(o):
+        txt = str(o.get("setup_error", "")).lower()
+        return any(r.get("err") == "timeout" for r in o["results"]) or "timeout" in txt or "deadline" in txt
+
+    todo, attempts, retried = [i for i, o in enumerate(obs) if suspect(o)], 0, set()
+    while todo and attempts < 3:
+        attempts += 1
+        retried |= set(todo)
+        f = os.path.join(ctx.work, "retry%d.jsonl" % attempts)
+        with open(f, "w") as fh:
+            for i in todo:
+                fh.write(json.dumps({k: v for k, v in obs[i].items() if k not in ("results", "setup_error")}) + "\n")
+        rc, out = vf.sh([h, "-slow", str(2 * 2 ** attempts), "-cases", f, "c05"], timeout=3000, env=vf.GOENV)
+        got = [json.loads(l) for l in out.splitlines() if l.startswith("{")]
+        ctx.log("retry %d of %d timed-out case(s) with deadlines x%d: rc=%d" % (attempts, len(todo), 2 * 2 ** attempts, rc))
+        if len(got) != len(todo):
+            break
+        for i, g in zip(todo, got):
+            for k in ("frames", "segs", "results"):
+                g[k] = g.get(k) or []
+            g["origin"] = obs[i].get("origin", "")
+            obs[i] = g
+        todo = [i for i in todo if suspect(obs[i])]
+    inconclusive = [obs[i] for i in todo]
+    obs = [o for i, o in enumerate(obs) if i not in set(todo)]
+    if inconclusive:
+        ctx.notes.append("%d case(s) timed out in the harness on every retry and were dropped as inconclusive" % len(inconclusive))
+
     # A connection that cannot be set up (real HEL/ACK exchange with frames that fit the buffers) is itself a
     # failure of the property: a well-sized frame (the Hello / the Acknowledge) was not delivered.
     bad_setup = [o for o in obs if o.get("setup_error")]
@@ -255,6 +298,9 @@ def run(ctx):
         "traces_validated_against_impl": len(lines),
         "model_impl_mismatches": len(mism),
         "connection_setups_failed": len(bad_setup),
+        "inconclusive": len(inconclusive),
+        "inconclusive_samples": [{k: o.get(k) for k in ("id", "via", "rbuf", "segkind", "setup_error")} for o in inconclusive[:3]],
+        "timeout_retries": {"cases_retried": len(retried), "rounds": attempts},
     })
     ctx.assumptions += [
         "in-order, loss-free byte delivery by the kernel's TCP and Go's net package (trusted)",
